@@ -209,7 +209,7 @@ pub fn stress_sources() -> Vec<(String, String)> {
     // resolve a method at depth D through one literal, then through the same literal with an override
     // at depth D-1 (and the other way round), for D = 1..5
     {
-        let mut s = String::from("function wrap(p) -> object extends p begin let w = 1; end;\nfunction over(p, v) -> object extends p begin function m() -> v; end;\nlet a = object begin function m() -> 1; end;\n");
+        let mut s = String::from("function wrap(p) -> object extends p begin let w = 1; end;\nfunction over(p, v) -> object extends p begin let val = v; function m() -> this.val; end;\nlet a = object begin function m() -> 1; end;\n");
         for d in 1..=5 {
             let mut deep = String::from("a");
             for _ in 0..d {
